@@ -504,7 +504,8 @@ class SimEnv:
         sch.events.append(EnvEvent(f"timeout:{p.pid}", lambda: p.state == "running" and p.comm_waiting_with_timeout and not p.timeout_fired, p._fire_timeout))
         if self.with_child:
             p.child = SimChild(self, p)
-            sch.events.append(EnvEvent(f"child-exit:{p.pid}", lambda: p.child.state == "running", lambda: p.child._exit(0)))
+            # (a child that has ignored SIGTERM is a worker that does not end by itself: only kill() ends it)
+            sch.events.append(EnvEvent(f"child-exit:{p.pid}", lambda: p.child.state == "running" and not p.child.stubborn, lambda: p.child._exit(0)))
         return p
 
     # -- psutil -----------------------------------------------------------------------------------
@@ -541,6 +542,8 @@ class SimEnv:
                     if env.allow_term_ignored and env.sch.choose(2, "sigterm") == 1:
                         # the process ignores / is slow to act on SIGTERM: only kill() ends it (or its own exit later)
                         env.sch.note(f"term-ignored:{self.p.pid}")
+                        if isinstance(self.p, SimChild):
+                            self.p.stubborn = True
                         return
                     self.p._exit(-15)
                     env.sch.note(f"terminated:{self.p.pid}")
@@ -573,6 +576,7 @@ class SimChild:
     def __init__(self, env, parent):
         self.env = env
         self.pid = parent.pid + 500
+        self.stubborn = False
         self.state = "running"
         self.returncode = None
         self.exit_step = None
